@@ -77,7 +77,7 @@ CHECKS["C07"] = dict(
 CHECKS["C08"] = dict(
     engine="store-driver",
     category="exploration",
-    text="Generated histories with many verifier passes, reopens (orphan clean-up) and cursors held across retirements; after every operation every sst named by the live tree and by an independent parse of the manifest must exist in sst/, a verifier pass must not change sst/ nor remove the live MANIFEST, and the full read-back must still equal the model. A verifier pass may unlink only trash ssts whose removal is recorded in a manifest fragment it processed in that pass. Every recovered image of the crash part gets follow-up writes, flushes, compaction and another reopen; the crash part kills the process at the calls of verifier passes, reopens and trash handling, and at every call from a move into trash (a flushed log, a compacted sst) to the end of the API call that made it.",
+    text="Generated histories with many verifier passes, reopens (orphan clean-up) and cursors held across retirements; after every operation every sst named by the live tree and by an independent parse of the manifest must exist in sst/, a verifier pass must not change sst/ nor remove the live MANIFEST, and the full read-back must still equal the model. A verifier pass may unlink only trash ssts whose removal is recorded in a manifest fragment it processed in that pass. Every recovered image of the crash part gets follow-up writes, flushes, compaction and another reopen; the crash part kills the process at the calls of verifier passes, reopens and trash handling, and at every call from a move into trash (a flushed log, a compacted sst) to the end of the API call that made it, and at the manifest's own calls; on every crash / error image, before recovery, every sst named by the complete transactions of the live MANIFEST must be present in sst/.",
     design_ref="DESIGN.md §5 C08",
     note=STORE_NOTE + " Crash points inside verifier passes and trash moves are explored by the C02 fault enumerator.",
     technique="stateful property-based testing with a file-presence invariant and model read-back",
@@ -111,7 +111,7 @@ CHECKS["C02"] = dict(
 CHECKS["C13"] = dict(
     engine="sysshim",
     category="fault_enumeration",
-    text="Four parts over generated edit / rollover / reopen sequences with adversarial strings: a fault-free model comparison (plus Manifest::verify and an independent fragment-chain parser), truncation of the live MANIFEST at every byte (small files) or generated bytes, and crash enumeration under the libc shim before every mutating call of apply and rollover in persistence models (a), (b) lose-all, (b) torn; reopening must yield a prefix state that contains every acknowledged edit, or (cuts inside a write only) an explicit error. Every cut / crash image that opens also gets two follow-up edits and two more reopens (life after recovery); edits include removals of absent strings and remove-and-re-add of a present string. Part 4 makes every mutating call in turn report EIO / ENOSPC (writes also: a short write, then ENOSPC) and lets the history go on on the same handle: every later reopen must show the edits that returned Ok plus each failed edit wholly or not at all.",
+    text="Five parts over generated edit / rollover / reopen sequences with adversarial strings: a fault-free model comparison (plus Manifest::verify and an independent fragment-chain parser), truncation of the live MANIFEST at every byte (small files) or generated bytes, and crash enumeration under the libc shim before every mutating call of apply and rollover in persistence models (a), (b) lose-all, (b) torn; reopening must yield a prefix state that contains every acknowledged edit, or (cuts inside a write only) an explicit error. Every cut / crash image that opens also gets two follow-up edits and two more reopens (life after recovery); edits include removals of absent strings and remove-and-re-add of a present string. Part 4 makes every mutating call in turn report EIO / ENOSPC (writes also: a short write, then ENOSPC) and lets the history go on on the same handle: every later reopen must show the edits that returned Ok plus each failed edit wholly or not at all. Part 5 hands the lock from one process to another: a second process waits in fcntl(F_SETLKW) while the holder applies more edits; it must open exactly what the holder left.",
     design_ref="DESIGN.md §5 C13",
     note="Info keys are ASCII; '+' and '-' as info keys are out of domain; directory operations are durable once they return.",
     technique="property-based testing against a set/map model plus crash-point and truncation enumeration",
